@@ -101,10 +101,12 @@ def _bytearray(*args):
     return bytearray(*args)
 
 
-def _bytes(*args):
-    if not args:
-        return b""
-    return Call(Glob("builtins", "bytes"), args)
+def _bytes_of(module):
+    def _bytes(*args):
+        if not args:
+            return b""
+        return Call(Glob(module, "bytes"), args)      # bytes(...) with arguments: kept symbolic, under the name it was found by
+    return _bytes
 
 
 class ExecGlob(Glob):
@@ -125,8 +127,8 @@ EXEC = {
     ("_codecs", "encode"): ExecGlob("_codecs", "encode", _codecs_encode),
     ("__builtin__", "bytearray"): ExecGlob("__builtin__", "bytearray", _bytearray),
     ("builtins", "bytearray"): ExecGlob("builtins", "bytearray", _bytearray),
-    ("__builtin__", "bytes"): ExecGlob("__builtin__", "bytes", _bytes),
-    ("builtins", "bytes"): ExecGlob("builtins", "bytes", _bytes),
+    ("__builtin__", "bytes"): ExecGlob("__builtin__", "bytes", _bytes_of("__builtin__")),
+    ("builtins", "bytes"): ExecGlob("builtins", "bytes", _bytes_of("builtins")),
 }
 
 
